@@ -5,16 +5,20 @@
 tier="${1:-quick}"; shift 2>/dev/null
 cd /verif
 names="$@"; [ -z "$names" ] && names=$(ls seeded)
-for s in $names; do
+for item in $names; do
+  # "<seed>" runs the check of the seed's own property; "<seed>:<PROP>" runs another property's check
+  s=$(echo $item | cut -d: -f1)
   [ -f seeded/$s/patch.diff ] || continue
   p=$(echo $s | cut -c1-3)
-  out=/tmp/seedmx_${s}.txt
+  det=detect.json
+  case "$item" in *:*) p=$(echo $item | cut -d: -f2); det=detect_$p.json;; esac
+  out=/tmp/seedmx_${s}_$p.txt; [ "$det" = detect.json ] && out=/tmp/seedmx_${s}.txt
   t0=$(date +%s)
   tools/with_mutant.sh seeded/$s/patch.diff -- ./check $p --tier $tier > $out 2>&1; rc=$?
   t1=$(date +%s)
   nv=$(grep -c "^VIOLATION" $out)
   first=$(grep -A1 "^VIOLATION" $out | sed -n 2p | cut -c1-200 | tr '"' "'" | tr '\\' '/')
   summ=$(grep -E "^$p tier" $out | cut -c1-200)
-  printf '{"seed": "%s", "property": "%s", "tier": "%s", "exit": %d, "violations": %d, "wall_s": %d, "summary": "%s", "first_violation": "%s"}\n' "$s" "$p" "$tier" "$rc" "$nv" "$((t1-t0))" "$summ" "$first" > seeded/$s/detect.json
-  echo "$s exit=$rc violations=$nv wall=$((t1-t0))s"
+  printf '{"seed": "%s", "property": "%s", "tier": "%s", "exit": %d, "violations": %d, "wall_s": %d, "summary": "%s", "first_violation": "%s"}\n' "$s" "$p" "$tier" "$rc" "$nv" "$((t1-t0))" "$summ" "$first" > seeded/$s/$det
+  echo "$item exit=$rc violations=$nv wall=$((t1-t0))s"
 done
